@@ -451,6 +451,10 @@ pub trait Vec1View<T>: TIter<T> {
         V2: Vec1View<T2>,
         F: FnMut(Self::SliceOutput<'_>, V2::SliceOutput<'_>) -> OT,
     {
+        assert!(
+            other.len() >= self.len(),
+            "the second series must not be shorter than the first"
+        );
         let iter = (1..self.len() + 1)
             .zip(std::iter::repeat_n(0, window - 1).chain(0..self.len()))
             .map(|(end, start)| unsafe {
@@ -693,6 +697,10 @@ pub trait Vec1View<T>: TIter<T> {
         F: FnMut(Option<(T, T2)>, (T, T2)) -> OT,
     {
         let len = self.len();
+        assert!(
+            other.len() >= len,
+            "the second series must not be shorter than the first"
+        );
         // nothing is written when the clamped window is 0: only an empty series may get there
         assert!(window > 0 || len == 0, "window must be greater than 0");
         let window = window.min(len);
@@ -937,6 +945,10 @@ pub trait Vec1View<T>: TIter<T> {
         F: FnMut(Option<usize>, usize, (T, T2)) -> OT,
     {
         let len = self.len();
+        assert!(
+            other.len() >= len,
+            "the second series must not be shorter than the first"
+        );
         // nothing is written when the clamped window is 0: only an empty series may get there
         assert!(window > 0 || len == 0, "window must be greater than 0");
         let window = window.min(len);
